@@ -87,9 +87,9 @@ def _td_post(e):
     if r is None:
         return e.err != 0 if e.result_null else False
     a = O.intval(e.op1)
-    from dv.cfe import i2d, fp_op
+    from dv.cfe import nearest_fp, fp_op
     fast = And(O.is_float(r), a >= -(2 ** 53), a <= 2 ** 53,
-               O.fval(r) == fp_op("/", 64)(i2d(64)(a), i2d(64)(e.intval)))
+               O.fval(r) == fp_op("/", 64)(nearest_fp(a), nearest_fp(e.intval)))
     deleg = O.generic(z3.IntVal(O.OPCODES["truediv"]), e.op1, e.op2, z3.IntVal(0), r)
     return Or(fast, deleg)
 
